@@ -211,15 +211,24 @@ class Merge(Expr):
 
     @property
     def _bcast_left(self):
+        # The side that is not broadcast follows the ``npartitions`` hint, but
+        # only as long as it keeps more partitions than the broadcast side:
+        # BroadcastJoin broadcasts the side with fewer partitions
         if self.operand("_npartitions") is not None:
-            if self.broadcast_side == "right":
+            if (
+                self.broadcast_side == "right"
+                and self._npartitions > self.right.npartitions
+            ):
                 return Repartition(self.left, new_partitions=self._npartitions)
         return self.left
 
     @property
     def _bcast_right(self):
         if self.operand("_npartitions") is not None:
-            if self.broadcast_side == "left":
+            if (
+                self.broadcast_side == "left"
+                and self._npartitions > self.left.npartitions
+            ):
                 return Repartition(self.right, new_partitions=self._npartitions)
         return self.right
 
